@@ -1,0 +1,18 @@
+//go:build verif
+
+package types
+
+// Read-only access to unexported pieces of the checker for the verification harness in /verif.
+// Compiled only with -tags verif.
+
+func VerifApplySubst(ty *Type, m map[string]*Type) *Type { return applySubst(ty, m) }
+func VerifFreeFrom(ty *Type, v *Type) bool               { return freeFrom(ty, v.TyVar()) }
+func VerifSlotFree(ty *Type) bool                        { return slotFree(ty) }
+func VerifInferFun(f *Type, args []*Type) *Type {
+	r := inferFun(f.Fun(), args)
+	if r == nil {
+		return nil
+	}
+	return r.Ty()
+}
+func VerifTupleKind() Kind { return kTuple }
